@@ -157,7 +157,7 @@ def rule_label_fixup(chk, facts, P):
             n += 1
             # is the result kept in a variable that LabelModify() hands to ChangeSymbol()?
             kept = any(is_assign(x) and strip(x[2]) in changes and nocast(x[3])[0] == 'call' and
-                       callee_name(nocast(x[3])) == callee_name(m) and nocast(x[3])[-1] == m[-1] for b2, i2, l2, x in lh.nodes())
+                       callee_name(nocast(x[3])) == callee_name(m) for b2, i2, l2, x in lh.nodes())
             chk.ob('C10-R12', 'asmlabel.c:LabelHandle:%s()' % callee_name(m), kept, lh.loc(ln),
                    'entry kept for ChangeSymbol()' if kept else
                    '%s() defines a symbol from the label value, but the entry is not kept: when padding moves the statement '
